@@ -127,8 +127,10 @@ def normalize(doc):
             for sh in s.get("shapes", []):
                 if sh[0] == "title":
                     blocks.append(["h", 1, sh[1]])
-                elif sh[0] in ("body", "text"):
+                elif sh[0] == "body":
                     blocks.extend(["p", p] for p in sh[1])
+                elif sh[0] == "text":       # a free text box (not a placeholder)
+                    blocks.append(["tbx", [["p", p] for p in sh[1]]])
                 elif sh[0] == "tbl":
                     blocks.append(["tbl", [[[["p", p] for p in cell] for cell in row] for row in sh[1]]])
             units.append({"blocks": blocks, "notes": s.get("notes") or [], "name": 0, "gap": 0})
